@@ -163,7 +163,8 @@ def run(spec, ctx):
     if spec["mode"] == "formats":
         from io_drawer.dump import HEX_DUMP_LINE_FORMATS
         fm = {"bmc": (iomodels.render_bmc, HEX_DUMP_LINE_FORMATS[0]), "old": (iomodels.render_old, HEX_DUMP_LINE_FORMATS[1])}
-        comments = ["", "   ", "# comment", "IO drawer dump", "----", "Z0 00", "<html>", "\t", "xx yy", "offset  data"]
+        comments = ["", "   ", "# comment", "IO drawer dump", "----", "Z0 00", "<html>", "\t", "xx yy", "offset  data",
+                    "# a remark that is wider than any line of a dump: " + "-" * 40, "note " * 30, "=" * 75, "x" * 63, "y" * 64]
         for i in range(spec["n"]):
             name = rng.choice(["bmc", "old", "default"])
             n = rng.choice([0, 1, 15, 16, 17, 31, 32, 33]) if rng.random() < 0.3 else rng.randrange(0, 300)
